@@ -19,7 +19,7 @@ PROPS = ["props/C07.v"]
 EXTRACTS = ["Solver", "C14"]
 THEOREMS = ["C07_listing_order_free_partial", "C07_listing_order_tie_refuted", "C07_spelling_irrelevant",
             "C07_sort_is_a_function_of_the_set_partial", "C07_index_page_listing_order_free_partial",
-            "C07_index_page_entry_independent_partial"]
+            "C07_index_page_entry_independent_partial", "C07_whole_compile_listing_order_free", "C07_compile_depends_on_answers_only"]
 MODES = ["calm", "conflict", "extras", "dense"]
 RULE = ("(a) whole-compile correspondence of the real solver with the model, which is a function of the logical input; "
         "(b) metamorphic runs of the real code against its own base run: candidate listings shuffled, input lines and "
@@ -36,7 +36,9 @@ ASSUMPTIONS = SP.ASSUMPTIONS + [
 ]
 LEVEL_TEXT = ("Theorems for all universes/requests on the Gallina model: the repository answer is invariant under any permutation of "
               "the candidate listing when versions are pairwise distinct (a stable sort ties otherwise: refuted witness), and depends "
-              "on the request's name only through its normalisation. Determinism under hash seeds, input order, spellings and process "
+              "on the request's name only through its normalisation; the WHOLE compile (outcome, graph, roots, failure) is the same for "
+              "any two repository stacks that differ only in listing order, for all inputs/constraints/options/budgets; simple index "
+              "pages offer the same candidates in any entry order. Determinism under hash seeds, input order, spellings and process "
               "history is NOT a theorem about the code: the model is a function by construction, the code is tied to it by whole-compile "
               "correspondence, and the remaining dimensions are exercised metamorphically on the real code (byte-identical output).")
 LEVEL_NOTE = ("Trusted: Coq kernel, extraction, drivers, T1/T2 harness, packaging semantics. Hash-seed runs are sampled (sub-processes); "
